@@ -169,6 +169,21 @@ def instantiate(hyps, goal, rounds=1, max_terms=12, extra=()):
     for c in sk:
         if z3.is_int(c):
             offs += [c + 1, c - 1]
+    # integer literals occurring in the goal are index candidates too (e.g. the fixed row 0 / 1 of a 2-row array)
+    goal_numerals, seen_num = [z3.IntVal(0)], {0}
+
+    def lits(e_):
+        if z3.is_int_value(e_):
+            v_ = e_.as_long()
+            if v_ not in seen_num and abs(v_) <= 8 and len(goal_numerals) < 6:
+                seen_num.add(v_)
+                goal_numerals.append(e_)
+        elif z3.is_quantifier(e_):
+            lits(e_.body())
+        else:
+            for c_ in e_.children():
+                lits(c_)
+    lits(g)
     inst_qf = []
     seen_q = {q.get_id() for q in qs}
     done = set()
@@ -185,7 +200,7 @@ def instantiate(hyps, goal, rounds=1, max_terms=12, extra=()):
             if sn in terms and all(not z3.eq(e, t) for t in terms[sn]):
                 terms[sn].append(e)
         if 'Int' in terms:
-            terms['Int'] = terms['Int'] + [z3.IntVal(0)]
+            terms['Int'] = terms['Int'] + goal_numerals
         for sn, alist in arrs.items():
             for a in alist:
                 for t in terms.get('Int', [])[:max_terms]:
@@ -216,12 +231,92 @@ def instantiate(hyps, goal, rounds=1, max_terms=12, extra=()):
     return facts + inst_qf
 
 
+_NLMUL = {}
+
+
+def _rebuild(e, ch):
+    try:
+        return e.decl()(*ch)
+    except z3.Z3Exception:
+        return e            # parametric / special declarations: keep the original sub-term (no abstraction inside it)
+
+
+def abstract_nl(formulas):
+    """replace products of two or more non-numeral factors by an uninterpreted function (sound for `unsat`:
+    the abstraction only forgets arithmetic facts); makes instantiated queries linear"""
+    cache = {}
+
+    def nlmul(sort):
+        k = sort.name()
+        if k not in _NLMUL:
+            _NLMUL[k] = z3.Function('nlmul_' + k, sort, sort, sort)
+        return _NLMUL[k]
+
+    def rec(e):
+        i = e.get_id()
+        if i in cache:
+            return cache[i]
+        if z3.is_quantifier(e):
+            vs = [z3.Const('%s' % e.var_name(k), e.var_sort(k)) for k in range(e.num_vars())]
+            body = rec(z3.substitute_vars(e.body(), *reversed(vs)))
+            r = (z3.ForAll(vs, body) if e.is_forall() else z3.Exists(vs, body)) if not e.is_lambda() else z3.Lambda(vs, body)
+        elif z3.is_app(e) and e.num_args() > 0:
+            ch = [rec(c) for c in e.children()]
+            if z3.is_mul(e):
+                nonnum = [c for c in ch if not (z3.is_int_value(c) or z3.is_rational_value(c))]
+                if len(nonnum) >= 2:
+                    num = [c for c in ch if z3.is_int_value(c) or z3.is_rational_value(c)]
+                    acc = nonnum[0]
+                    for c in nonnum[1:]:
+                        a, b = (acc, c) if str(acc) <= str(c) else (c, acc)      # commutative: canonical argument order
+                        acc = nlmul(e.sort())(a, b)
+                    for c in num:
+                        acc = c * acc
+                    r = acc
+                else:
+                    r = _rebuild(e, ch)
+            else:
+                r = _rebuild(e, ch)
+        else:
+            r = e
+        cache[i] = r
+        return r
+    try:
+        return [rec(f) for f in formulas]
+    except z3.Z3Exception:
+        return list(formulas)
+
+
 def _check(assertions, timeout_ms, tactic=None):
     s = z3.Solver() if tactic is None else z3.Then(*tactic).solver() if isinstance(tactic, (list, tuple)) else z3.Tactic(tactic).solver()
     s.set('timeout', int(timeout_ms))
     s.add(assertions)
     r = s.check()
     return str(r), s
+
+
+def _cli_check(assertions, timeout_s, binary='z3-new'):
+    """the same query, serialised to SMT-LIB text and decided by a fresh solver process.  z3's answer on quantified queries
+    depends on the term numbering of the process that built them (history of earlier units); a fresh process does not."""
+    import tempfile, subprocess
+    sv = z3.Solver()
+    sv.add(assertions)
+    txt = sv.to_smt2()
+    fd, path = tempfile.mkstemp(suffix='.smt2', prefix='pyvc_')
+    try:
+        with os.fdopen(fd, 'w') as f:
+            f.write(txt)
+        try:
+            p = subprocess.run([binary, '-T:%d' % max(1, int(timeout_s)), path], capture_output=True, text=True, timeout=timeout_s + 3)
+        except (subprocess.TimeoutExpired, OSError):
+            return 'unknown'
+        first = (p.stdout.strip().splitlines() or ['unknown'])[0].strip()
+        return first if first in ('unsat', 'sat') else 'unknown'
+    finally:
+        try:
+            os.unlink(path)
+        except OSError:
+            pass
 
 
 def _model_values(s, want):
@@ -235,9 +330,19 @@ def _model_values(s, want):
     return out
 
 
-def decide(axioms, vc, budget_s, pins=None, want=None, strategies=('inst', 'z3', 'inst2')):
+DEFAULT_STRATEGIES = tuple(os.environ.get('VERIF_STRATEGIES', 'z3quick,inst,cli,z3,inst2').split(','))
+
+
+def decide(axioms, vc, budget_s, pins=None, want=None, strategies=None, seed=0):
     """runs inside the worker"""
+    strategies = strategies or DEFAULT_STRATEGIES
     t0 = time.time()
+    if seed:
+        try:
+            z3.set_param('smt.random_seed', int(seed))
+            z3.set_param('sat.random_seed', int(seed))
+        except z3.Z3Exception:
+            pass
     hyps = list(axioms) + list(vc.hyps)
     res = {'status': 'unknown', 'by': None, 'tried': []}
     reserve = 0.25 * budget_s if pins else 0.0
@@ -249,13 +354,23 @@ def decide(axioms, vc, budget_s, pins=None, want=None, strategies=('inst', 'z3',
             if strat in ('inst', 'inst2', 'inst3'):
                 rounds, mt = {'inst': (1, 10), 'inst2': (2, 12), 'inst3': (3, 10)}[strat]
                 facts = instantiate(hyps, vc.goal, rounds=rounds, max_terms=mt, extra=vc.hints)
-                r, s = _check(facts, left * 1000 * (0.4 if strat == 'inst' else 0.9))
+                r, s = _check(facts, left * 1000 * (0.25 if strat == 'inst' else 0.6))
+                if r != 'unsat' and any('*' in f.sexpr() for f in facts[:400]):
+                    r2, s2 = _check(abstract_nl(facts), left * 1000 * 0.25)      # same instances with products made opaque
+                    if r2 == 'unsat':
+                        r, s = r2, s2
                 res['tried'].append((strat, r, round(time.time() - t0, 3)))
                 if r == 'unsat':
                     res.update(status='unsat', by=strat)
                     break
-            elif strat == 'z3':
-                r, s = _check(hyps + [z3.Not(vc.goal)], left * 1000 * 0.5)
+            elif strat in ('cli', 'cli-old'):
+                r = _cli_check(hyps + [z3.Not(vc.goal)], max(5.0, min(left * 0.6, 15.0)), 'z3-new' if strat == 'cli' else '/usr/bin/z3')
+                res['tried'].append((strat, r, round(time.time() - t0, 3)))
+                if r == 'unsat':
+                    res.update(status='unsat', by='z3-cli' if strat == 'cli' else 'z3-4.8-cli')
+                    break
+            elif strat in ('z3', 'z3quick'):
+                r, s = _check(hyps + [z3.Not(vc.goal)], min(left * 0.2, 2.0) * 1000 if strat == 'z3quick' else left * 1000 * 0.5)
                 res['tried'].append((strat, r, round(time.time() - t0, 3)))
                 if r == 'unsat':
                     res.update(status='unsat', by='z3')
@@ -378,9 +493,18 @@ def discharge(vcs, axioms, budget_s=10, nproc=16, pins=None, want=None, retry_fa
         again = again[:8]
         retry_factor = min(retry_factor, 3)
     if again and retry_factor > 1:
+        # portfolio: z3's behaviour on quantified queries varies with its random seed (and it can ignore its own time-out),
+        # so each undecided VC is retried by several workers with different seeds / strategy orders; any `unsat` discharges it
         b2 = budget_s * retry_factor
-        jobs = [(k, (lambda vc=vcs[k]: decide(axioms, vc, b2, pins, want, strategies=('z3', 'inst2', 'inst3')))) for k in again]
-        res2 = run_pool(jobs, nproc=nproc, hard_timeout=b2 * 1.3 + 5)
+        port = [(1, ('cli', 'inst', 'z3')), (2, ('cli-old', 'z3', 'inst2')), (3, ('inst2', 'z3')), (4, ('z3quick', 'inst3', 'z3')), (5, ('z3', 'inst'))]
+        jobs = [((k, sd), (lambda vc=vcs[k], sd=sd, stg=stg: decide(axioms, vc, b2 / 2, pins, want, strategies=stg, seed=sd))) for k in again for sd, stg in port]
+        resp = run_pool(jobs, nproc=nproc, hard_timeout=b2 / 2 * 1.3 + 5)
+        res2 = {}
+        for k in again:
+            cands = [resp[(k, sd)] for sd, _ in port]
+            best = [c for c in cands if c.get('status') == 'unsat'] or [c for c in cands if c.get('status') == 'sat'] or cands
+            res2[k] = dict(best[0])
+            res2[k]['portfolio'] = [c.get('status') for c in cands]
         for k in again:
             r2 = res2[k]
             r2['tried'] = (out[k].get('tried') or []) + [('retry', 'x%d budget' % retry_factor, 0)] + (r2.get('tried') or [])
@@ -396,10 +520,24 @@ def cover(vcs, axioms, pins, budget_s=5, nproc=16):
         return [h for h in hs if not (z3.is_quantifier(h) and any(h.var_sort(k).kind() == z3.Z3_ARRAY_SORT for k in range(h.num_vars())))]
 
     def job(vc):
+        hyps_all = list(axioms) + list(vc.hyps)
+        quantified = any(z3.is_quantifier(h) for h in hyps_all)
+        if quantified:
+            # bounded-quantifier route first: with the sizes pinned, the index-set instances of the quantified hypotheses form a
+            # ground formula; its satisfiability (a concrete state of that size satisfying every instance) is the evidence.
+            # (cheap, and the only route that answers when the hypotheses carry ghost functions with recursive axioms)
+            for pin in (pins or [[]])[:2]:
+                try:
+                    facts = instantiate(hyps_all + list(pin), z3.BoolVal(False), rounds=1, max_terms=8)
+                    r, s = _check(facts, 2500)
+                except z3.Z3Exception:
+                    r = 'unknown'
+                if r == 'sat':
+                    return {'status': 'sat'}
         seen_unknown, seen_unsat = False, False
-        for pin in (pins or [[]]):
-            per = budget_s * 1000 / max(1, len(pins or [1]))
-            for hyps in (list(axioms) + list(vc.hyps), light(list(axioms) + list(vc.hyps))):
+        for pin in (pins or [[]])[:3]:
+            per = min(budget_s * 1000 / max(1, len(pins or [1])), 1200)
+            for hyps in (hyps_all, light(hyps_all)):
                 try:
                     r, s = _check(hyps + list(pin), per)
                 except z3.Z3Exception:
